@@ -404,6 +404,34 @@ def received_record_dispatch(chk):
     chk.floor('record dispatch cases', n, 18)
 
 
+def io_wrapper_acks_transport_count(chk):
+    """br_sslio (run_until): the number of bytes acknowledged to the engine is the number the transport callback reported - the
+    value returned by low_write for sendrec_ack, by low_read for recvrec_ack - not the size that was offered.  A transport that
+    writes fewer bytes than offered (any non-blocking or packetised one) otherwise loses the tail of the record."""
+    R = 'io-wrapper-acks-transport-count'
+    src = 'src/ssl/ssl_io.c'
+    u = build.load_unit(src)
+    F = next((irf.Func(u, f) for f in u['functions'] if f['name'] == 'run_until' and f.get('blocks')), None)
+    if F is None:
+        raise AnalysisBroken('run_until vanished')
+    ind = [c for c in F.calls() if c.get('callee') is None]
+    n = 0
+    for ack in ('br_ssl_engine_sendrec_ack', 'br_ssl_engine_recvrec_ack'):
+        cs = F.calls(ack)
+        if len(cs) != 1:
+            raise AnalysisBroken('run_until: %d calls to %s' % (len(cs), ack))
+        c = cs[0]
+        n += 1
+        inst = 'run_until: %s receives the count returned by the transport callback' % ack
+        v = F.strip_casts(c['ops'][1])
+        if v['k'] == 'i' and any(v['v'] == x['id'] for x in ind):
+            chk.ok(R, inst, F.where(c))
+        else:
+            chk.violation(R, inst, F.where(c), 'the acknowledged length is not the value returned by low_%s: with a short %s the engine believes the whole window was moved'
+                          % (('write', 'write') if 'send' in ack else ('read', 'read')), key='%s %s' % (R, ack))
+    chk.floor('io acks', n, 2)
+
+
 def no_renegotiation_option(chk):
     """BR_OPT_NO_RENEGOTIATION: "when disabled, renegotiation is declined with a no_renegotiation warning".  In both interpreters the
     post-handshake loop - the word that sends warning 100 - must consult that option: the bytecode tests engine flags by bit *index*
@@ -759,6 +787,7 @@ def run(tier):
     no_renegotiation_option(chk)
     input_discarded_only_when_closing(chk)
     received_record_dispatch(chk)
+    io_wrapper_acks_transport_count(chk)
     fail_call_sites(chk)
     io_rules(chk)
     # the closure / renegotiation processor is resumed when a record has been sent (engine I/O transition table, shared with C01 / C06)
